@@ -811,12 +811,7 @@ func (p *wat2arm64Worker) buildFunc_ins(
 
 		// 定义每个分支的跳转代码
 		{
-			// 当前block的返回值位置是相同的, 只能统一取一次
-			var retIdxList = make([]int, len(defaultScopeContex.Result))
-			for k := len(defaultScopeContex.Result) - 1; k >= 0; k-- {
-				xTyp := defaultScopeContex.Result[k]
-				retIdxList[k] = stk.Pop(xTyp)
-			}
+			// 和 br 指令一样, 返回值保留在栈上: 每个分支按栈顶位置搬运, block 结束时统一重置栈
 
 			for k := 0; k < len(i.XList); k++ {
 				destScopeContex := scopeStack.FindScopeContext(i.XList[k])
